@@ -12,6 +12,7 @@ def run(tier, seed, ev):
     import entry
     with mirrun.mir_executor(PROP) as (ex, scr, mir_s):
         tprop.SCEN_INJ.append(("src/lib.rs", "replay_reads.rs", "verif_replay_reads"))
+        tprop.SCEN_INJ.append(("src/lib.rs", "replay_torn.rs", "verif_replay_torn"))
         mut = ("every mutation of the key map happens under the state write lock (writes are totally ordered)",
                T.p_index_mutation_under_write_lock, "mutation_locked", "probe:replay_unlink_under_intents")
         keep = ("a put keeps an intent for (its key, its hash) from before its blob is visible until its index apply: a blob it is about "
@@ -29,7 +30,7 @@ def run(tier, seed, ev):
                     for e in f.trace:
                         if e["kind"] == "io" and e["op"] == "unlink" and (e.get("path") or ("",))[0] == "cas":
                             locksets.add(frozenset(l for (l, m) in e["locks"]))
-        one = ("one index lookup, under the state read lock", T.p_single_lookup_under_read_lock, "single_lookup", "probe:replay_read_vs_overwrite")
+        one = ("one index lookup, under the state read lock", T.p_single_lookup_under_read_lock, "single_lookup", "probe:replay_single_lookup")
         race = ("no schedule lets a writer unlink the blob between a read's lookup and its open (lockset query)",
                 T.make_p_read_vs_unlink([set(x) for x in locksets]), "read_vs_unlink", "probe:replay_read_vs_overwrite")
         # (the lockset query `race` is subsumed by the interleaving exploration below, whose counterexample
